@@ -37,6 +37,19 @@ fn check_single(c: &Content) -> Result<Vec<u64>, String> {
                     (h.block_hash_2_numeric_windows().len(), h.block_hash_2_index_windows().len())
                 };
                 let hint = if k == 0 { h.block_hash_1_index_windows().size_hint() } else { h.block_hash_2_index_windows().size_hint() };
+                // the exact-size contract also holds after consuming some items, and the iterators are fused
+                let mut it = if k == 0 { h.block_hash_1_index_windows() } else { h.block_hash_2_index_windows() };
+                let mut left = n;
+                while left > 0 {
+                    if it.len() != left || it.size_hint() != (left, Some(left)) {
+                        return Err(format!("index window iterator reports len {} with {} items left", it.len(), left));
+                    }
+                    it.next();
+                    left -= 1;
+                }
+                if it.next().is_some() || it.next().is_some() || it.len() != 0 {
+                    return Err("index window iterator yields items after its end".into());
+                }
                 if slices.len() != n || nums.len() != n || inds.len() != n || ln != n || li != n || hint != (n, Some(n)) {
                     return Err(format!("window iterator lengths: slices {} numeric {} index {} len() {} / {} expected {}", slices.len(), nums.len(), inds.len(), ln, li, n));
                 }
